@@ -17,7 +17,7 @@ RULE = ("Hypothesis-generated compose descriptions (release/base product/compose
         "through the public API in a generated construction order, dumped and re-read; oracle = snapshot and JSON "
         "document computed from the description (not from the first object) + byte-identical second dump. "
         "Non-trivial = forest has a child variant or a path table, or a label, base product or non-ga type is present; "
-        "distinct = SHA-1 of the canonical description.")
+        "distinct = SHA-1 of the canonical description. Every case also reads the file into an object that refused another document first, and revises the written and the loaded object in place (names, a path table replaced by assignment, an architecture gained) before writing again; the second file is compared with the reference document of the revised description.")
 ASSUMPTIONS = ["json (stdlib) is a correct JSON reader", "descriptions stay inside the domain of C01's quantifier"]
 FLOORS = {"distinct_nontrivial": 150, "roundtrip:depth3": 10, "roundtrip:layered": 20, "roundtrip:dashed-top-uid": 10,
           "roundtrip:dashed-top-uid-with-children": 10}
